@@ -125,7 +125,7 @@ func (fr *Frame) defaultEffects(st *State, fn *ssa.Function, name string, args [
 		return
 	}
 	escapes := false
-	var sliceSorts []string
+	var sliceElems []types.Type
 	for _, a := range args {
 		if a.Ty == nil {
 			continue
@@ -136,7 +136,7 @@ func (fr *Frame) defaultEffects(st *State, fn *ssa.Function, name string, args [
 		case *types.Slice:
 			es := u.sortOf(t.Elem())
 			if es == sInt || es == sStr || es == sReal || es == sBool {
-				sliceSorts = append(sliceSorts, es)
+				sliceElems = append(sliceElems, t.Elem())
 			} else {
 				escapes = true
 			}
@@ -148,10 +148,11 @@ func (fr *Frame) defaultEffects(st *State, fn *ssa.Function, name string, args [
 		u.havocAll(st, "external call with reference arguments: "+name)
 		return
 	}
-	for _, es := range sliceSorts {
+	for _, et := range sliceElems {
 		u.note("external call may write slice elements: " + name)
-		hn := "E_" + sortTag(es)
-		u.heapSort[hn] = "(Array Int (Array Int " + es + "))"
+		hn := u.elemHeapName(et)
+		u.heapSort[hn] = "(Array Int (Array Int " + u.sortOf(et) + "))"
+		u.hget(st, hn, u.heapSort[hn])
 		u.havocName(st, hn)
 	}
 	u.note("external call, scalar arguments only, assumed not to touch repository state: " + name)
@@ -265,6 +266,14 @@ func (fr *Frame) applyContract(st *State, spec *FuncSpec, fn *ssa.Function, args
 		}
 		u.check(fr, st, "pre", cname+"."+clauseKey(cl), t, "precondition of "+fn.Name()+": "+cl.Text, pos, cl.Props)
 	}
+	if err := fr.callSiteInvs(st, st, spec, fn, env, true, pos); err != nil {
+		u.failed = err.Error()
+		return fr.freshResults(st, sig)
+	}
+	if err := u.globalInvs(fr, st, spec, fn.Pkg.Pkg.Path(), true, pos, "pre"); err != nil {
+		u.failed = err.Error()
+		return fr.freshResults(st, sig)
+	}
 	old := st.clone()
 	// frame
 	if !spec.HasMod {
@@ -274,6 +283,10 @@ func (fr *Frame) applyContract(st *State, spec *FuncSpec, fn *ssa.Function, args
 		if err != nil {
 			u.failed = err.Error()
 			return fr.freshResults(st, sig)
+		}
+		if !spec.Flags["noalloc"] {
+			u.hget(st, "$alloc", sInt)
+			u.havocName(st, "$alloc")
 		}
 		for _, mt := range mts {
 			if mt.heap == "*" {
@@ -287,12 +300,20 @@ func (fr *Frame) applyContract(st *State, spec *FuncSpec, fn *ssa.Function, args
 			} else {
 				h := u.hget(st, mt.heap, mt.hsort)
 				es := elemSortOfArray(mt.hsort)
-				u.hset(st, mt.heap, mt.hsort, store(h, mt.idx, u.fresh(mt.heap+"_at", es)))
+				nv := u.fresh(mt.heap+"_at", es)
+				if hi, ok := u.heapInfo[mt.heap]; ok && !u.discovery {
+					a := u.hget(st, "$alloc", sInt)
+					switch hi.levels {
+					case 1:
+						u.assumeGlobal(u.wfVal(nv, hi.elemTy, a))
+					case 2:
+						if w := u.wfVal("(select "+nv+" k)", hi.elemTy, a); w != "true" {
+							u.assumeGlobal(fmt.Sprintf("(forall ((k %s)) (! %s :pattern ((select %s k))))", hi.keySort, w, nv))
+						}
+					}
+				}
+				u.hset(st, mt.heap, mt.hsort, store(h, mt.idx, nv))
 			}
-		}
-		if !spec.Flags["noalloc"] {
-			u.hget(st, "$alloc", sInt)
-			u.havocName(st, "$alloc")
 		}
 	}
 	rs := fr.freshResults(st, sig)
@@ -306,7 +327,40 @@ func (fr *Frame) applyContract(st *State, spec *FuncSpec, fn *ssa.Function, args
 		}
 		u.assume(st, t)
 	}
+	if err := fr.callSiteInvs(st, old, spec, fn, env, false, pos); err != nil {
+		u.failed = err.Error()
+	}
+	if err := u.globalInvs(fr, st, spec, fn.Pkg.Pkg.Path(), false, pos, ""); err != nil {
+		u.failed = err.Error()
+	}
 	return rs
+}
+
+// callSiteInvs checks (before the call) or assumes (after it) the data-structure invariants the callee preserves.
+func (fr *Frame) callSiteInvs(st, old *State, spec *FuncSpec, fn *ssa.Function, env map[string]Val, check bool, pos token.Pos) error {
+	u := fr.u
+	for _, name := range spec.Preserves {
+		target := ""
+		if i := strings.Index(name, "."); i >= 0 {
+			target, name = name[:i], name[i+1:]
+		} else if len(fn.Params) > 0 {
+			target = fn.Params[0].Name()
+		}
+		v, ok := env[target]
+		if !ok {
+			return fmt.Errorf("%s: preserves %s: no parameter %s", spec.Name, name, target)
+		}
+		t, err := u.typeInvTerm(v, name, &specCtx{fr: fr, cur: st, old: old, env: env, pkg: fn.Pkg.Pkg})
+		if err != nil {
+			return err
+		}
+		if check {
+			u.check(fr, st, "pre", sanitize(fn.Name())+".inv."+name, t, "data-structure invariant "+name+" required by "+fn.Name(), pos, spec.Props)
+		} else {
+			u.assume(st, t)
+		}
+	}
+	return nil
 }
 
 func (u *Unit) bindResultNames(env map[string]Val, spec *FuncSpec, fn *ssa.Function, rs []Val) {
@@ -386,7 +440,7 @@ func (u *Unit) resolveModifies(spec *FuncSpec, ctx *specCtx) ([]modTarget, error
 			switch tt := v.Ty.Underlying().(type) {
 			case *types.Slice:
 				es := u.sortOf(tt.Elem())
-				out = append(out, modTarget{heap: "E_" + sortTag(es), hsort: "(Array Int (Array Int " + es + "))", idx: sx("s_arr", v.T)})
+				out = append(out, modTarget{heap: u.elemHeapName(tt.Elem()), hsort: "(Array Int (Array Int " + es + "))", idx: sx("s_arr", v.T)})
 			case *types.Map:
 				dn, ds, vn, vs, cn := u.mapHeaps(tt)
 				out = append(out, modTarget{dn, ds, v.T}, modTarget{vn, vs, v.T}, modTarget{cn, "(Array Int Int)", v.T})
@@ -523,7 +577,7 @@ func (fr *Frame) builtin(st *State, name string, c *ssa.CallCommon, args []Val, 
 		u.assume(st, eq(n, ite(sx("<", sx("s_len", dst.T), srcLen), sx("s_len", dst.T), srcLen)))
 		if t, ok := dst.Ty.Underlying().(*types.Slice); ok {
 			es := u.sortOf(t.Elem())
-			hn, hs := "E_"+sortTag(es), "(Array Int (Array Int "+es+"))"
+			hn, hs := u.elemHeapName(t.Elem()), "(Array Int (Array Int "+es+"))"
 			h := u.hget(st, hn, hs)
 			na := u.fresh("copied", "(Array Int "+es+")")
 			oldArr := sel(h, sx("s_arr", dst.T))
@@ -554,7 +608,7 @@ func (fr *Frame) builtin(st *State, name string, c *ssa.CallCommon, args []Val, 
 		case *types.Slice:
 			// clear(slice) zeroes the elements and keeps the length
 			es := u.sortOf(t.Elem())
-			hn, hs := "E_"+sortTag(es), "(Array Int (Array Int "+es+"))"
+			hn, hs := u.elemHeapName(t.Elem()), "(Array Int (Array Int "+es+"))"
 			h := u.hget(st, hn, hs)
 			na := u.fresh("cleared", "(Array Int "+es+")")
 			s := args[0].T
@@ -617,7 +671,7 @@ func (fr *Frame) doAppend(st *State, s, t Val, tOperand ssa.Value) Val {
 	}
 	et := slt.Elem()
 	es := u.sortOf(et)
-	hn, hs := "E_"+sortTag(es), "(Array Int (Array Int "+es+"))"
+	hn, hs := u.elemHeapName(et), "(Array Int (Array Int "+es+"))"
 	asort := "(Array Int " + es + ")"
 	h := u.hget(st, hn, hs)
 	var n string
@@ -631,7 +685,7 @@ func (fr *Frame) doAppend(st *State, s, t Val, tOperand ssa.Value) Val {
 		if tIsStr {
 			return sx("sat", t.T, i)
 		}
-		return sel(sel(h, sx("s_arr", t.T)), sx("+", sx("s_off", t.T), i))
+		return sel(sel(h, sx("s_arr", t.T)), u.sidx(t.T, i))
 	}
 	// static single-element append?
 	single := false
@@ -651,9 +705,9 @@ func (fr *Frame) doAppend(st *State, s, t Val, tOperand ssa.Value) Val {
 	var inplace, realloc string
 	if single {
 		x := u.define("appelem", es, tAt("0"))
-		inplace = store(sarr, sx("+", sx("s_off", s.T), sx("s_len", s.T)), x)
+		inplace = store(sarr, u.sidx(s.T, sx("s_len", s.T)), x)
 		ra := u.fresh("apparr", asort)
-		u.assume(st, fmt.Sprintf("(forall ((i Int)) (! (=> (and (<= 0 i) (< i (s_len %s))) (= (select %s i) (select %s (+ (s_off %s) i)))) :pattern ((select %s i))))", s.T, ra, sarr, s.T, ra))
+		u.assume(st, fmt.Sprintf("(forall ((i Int)) (! (=> (and (<= 0 i) (< i (s_len %s))) (= (select %s i) (select %s (sidx %s i)))) :pattern ((select %s i))))", s.T, ra, sarr, s.T, ra))
 		realloc = store(ra, sx("s_len", s.T), x)
 	} else {
 		ia := u.fresh("appin", asort)
@@ -661,7 +715,7 @@ func (fr *Frame) doAppend(st *State, s, t Val, tOperand ssa.Value) Val {
 			ia, s.T, s.T, s.T, newLen, tAt(fmt.Sprintf("(- i (+ (s_off %s) (s_len %s)))", s.T, s.T)), sarr, ia))
 		inplace = ia
 		ra := u.fresh("apparr", asort)
-		u.assume(st, fmt.Sprintf("(forall ((i Int)) (! (=> (and (<= 0 i) (< i %s)) (= (select %s i) (ite (< i (s_len %s)) (select %s (+ (s_off %s) i)) %s))) :pattern ((select %s i))))",
+		u.assume(st, fmt.Sprintf("(forall ((i Int)) (! (=> (and (<= 0 i) (< i %s)) (= (select %s i) (ite (< i (s_len %s)) (select %s (sidx %s i)) %s))) :pattern ((select %s i))))",
 			newLen, ra, s.T, sarr, s.T, tAt(fmt.Sprintf("(- i (s_len %s))", s.T)), ra))
 		realloc = ra
 	}
@@ -704,20 +758,22 @@ var models map[string]modelFn
 func init() {
 	tInt, tBool, tStr := types.Typ[types.Int], types.Typ[types.Bool], types.Typ[types.String]
 	errT := types.Universe.Lookup("error").Type()
-	noop := func(fr *Frame, st *State, args []Val, in ssa.Instruction, pos token.Pos) ([]Val, bool) { return nil, true }
+	noop := func(fr *Frame, st *State, args []Val, in ssa.Instruction, pos token.Pos) ([]Val, bool) {
+		return nil, true
+	}
 	models = map[string]modelFn{
-		"runtime.GC":                  noop,
-		"log.Printf":                  noop,
-		"log.Println":                 noop,
-		"log.Print":                   noop,
-		"(*sync.WaitGroup).Add":       noop,
-		"(*sync.WaitGroup).Done":      noop,
-		"(*sync.Mutex).Lock":          lockModel("lock"),
-		"(*sync.Mutex).Unlock":        lockModel("unlock"),
-		"(*sync.RWMutex).Lock":        lockModel("lock"),
-		"(*sync.RWMutex).Unlock":      lockModel("unlock"),
-		"(*sync.RWMutex).RLock":       lockModel("rlock"),
-		"(*sync.RWMutex).RUnlock":     lockModel("runlock"),
+		"runtime.GC":              noop,
+		"log.Printf":              noop,
+		"log.Println":             noop,
+		"log.Print":               noop,
+		"(*sync.WaitGroup).Add":   noop,
+		"(*sync.WaitGroup).Done":  noop,
+		"(*sync.Mutex).Lock":      lockModel("lock"),
+		"(*sync.Mutex).Unlock":    lockModel("unlock"),
+		"(*sync.RWMutex).Lock":    lockModel("lock"),
+		"(*sync.RWMutex).Unlock":  lockModel("unlock"),
+		"(*sync.RWMutex).RLock":   lockModel("rlock"),
+		"(*sync.RWMutex).RUnlock": lockModel("runlock"),
 	}
 	models["strings.ToLower"] = func(fr *Frame, st *State, args []Val, in ssa.Instruction, pos token.Pos) ([]Val, bool) {
 		u := fr.u
@@ -837,9 +893,9 @@ func init() {
 			return nil, false
 		}
 		es := u.sortOf(slt.Elem())
-		h := u.hget(st, "E_"+sortTag(es), "(Array Int (Array Int "+es+"))")
+		h := u.hget(st, u.elemHeapName(slt.Elem()), "(Array Int (Array Int "+es+"))")
 		r := u.fresh("contains", sBool)
-		u.assume(st, eq(r, fmt.Sprintf("(exists ((i Int)) (and (<= 0 i) (< i (s_len %s)) (= (select (select %s (s_arr %s)) (+ (s_off %s) i)) %s)))", s.T, h, s.T, s.T, v.T)))
+		u.assume(st, eq(r, fmt.Sprintf("(exists ((i Int)) (and (<= 0 i) (< i (s_len %s)) (= (select (select %s (s_arr %s)) (sidx %s i)) %s)))", s.T, h, s.T, s.T, v.T)))
 		return []Val{{r, tBool, ""}}, true
 	}
 	models["slices.Index"] = func(fr *Frame, st *State, args []Val, in ssa.Instruction, pos token.Pos) ([]Val, bool) {
@@ -850,8 +906,8 @@ func init() {
 			return nil, false
 		}
 		es := u.sortOf(slt.Elem())
-		h := u.hget(st, "E_"+sortTag(es), "(Array Int (Array Int "+es+"))")
-		at := func(i string) string { return sel(sel(h, sx("s_arr", s.T)), sx("+", sx("s_off", s.T), i)) }
+		h := u.hget(st, u.elemHeapName(slt.Elem()), "(Array Int (Array Int "+es+"))")
+		at := func(i string) string { return sel(sel(h, sx("s_arr", s.T)), u.sidx(s.T, i)) }
 		r := u.fresh("index", sInt)
 		u.assume(st, and(sx("<=", "(- 1)", r), sx("<", r, sx("s_len", s.T))))
 		u.assume(st, implies(sx(">=", r, "0"), eq(at(r), v.T)))
@@ -872,8 +928,8 @@ func init() {
 				return nil, false
 			}
 			es := u.sortOf(slt.Elem())
-			h := u.hget(st, "E_"+sortTag(es), "(Array Int (Array Int "+es+"))")
-			at := func(i string) string { return sel(sel(h, sx("s_arr", s.T)), sx("+", sx("s_off", s.T), i)) }
+			h := u.hget(st, u.elemHeapName(slt.Elem()), "(Array Int (Array Int "+es+"))")
+			at := func(i string) string { return sel(sel(h, sx("s_arr", s.T)), u.sidx(s.T, i)) }
 			pred := func(x string) (string, bool) { return fr.closurePred(st, ci, Val{x, slt.Elem(), ""}) }
 			r := u.fresh("indexfunc", sInt)
 			pr, ok1 := pred(at(r))
@@ -908,6 +964,8 @@ func init() {
 		return []Val{{n, tInt, ""}, e}, true
 	}
 	_ = sort.Strings
+	initHeapModels()
+	initAtomicModels()
 }
 
 func (u *Unit) declItoa() {
@@ -987,4 +1045,276 @@ func (fr *Frame) closurePred(st *State, ci *closInfo, x Val) (string, bool) {
 		term = ite(sub.rets[k].st.pc, sub.rets[k].vals[0].T, term)
 	}
 	return term, true
+}
+
+
+// ---------- container/heap (assumed contract: only the heap.Interface methods are called, with in-range indices) ----------
+
+func (fr *Frame) heapRecv(st *State, in ssa.Instruction) (ssa.Value, types.Type, bool) {
+	call := in.(ssa.CallInstruction).Common()
+	mi, ok := call.Args[0].(*ssa.MakeInterface)
+	if !ok {
+		return nil, nil, false
+	}
+	return mi.X, mi.X.Type(), true
+}
+
+func (fr *Frame) methodOf(t types.Type, name string) *ssa.Function {
+	ms := fr.u.eng.prog.MethodSets.MethodSet(t)
+	for i := 0; i < ms.Len(); i++ {
+		if ms.At(i).Obj().Name() == name {
+			return fr.u.eng.prog.MethodValue(ms.At(i))
+		}
+	}
+	return nil
+}
+
+// heapSwaps models an arbitrary sequence of h.Swap(i,j) calls with in-range indices: the locations Swap may modify
+// are havocked, every data-structure invariant Swap preserves is required before and assumed after, and the slice
+// header fields Swap leaves alone stay as they are (Swap's frame is checked on Swap itself).
+func (fr *Frame) heapSwaps(st *State, recv Val, rt types.Type, pos token.Pos, hi string) bool {
+	u := fr.u
+	swap := fr.methodOf(rt, "Swap")
+	if swap == nil {
+		return false
+	}
+	spec := u.eng.specFor(swap)
+	if spec == nil || !spec.HasMod {
+		return false
+	}
+	env := map[string]Val{swap.Params[0].Name(): recv, "$hi": {T: hi, Ty: tIntT}}
+	for _, p := range swap.Params[1:] {
+		env[p.Name()] = Val{T: sx("-", hi, "1"), Ty: tIntT} // any index below $hi: makes the guards of seq-* clauses true
+	}
+	ctx := &specCtx{fr: fr, cur: st, old: st, env: env, pkg: swap.Pkg.Pkg}
+	if err := fr.callSiteInvs(st, st, spec, swap, env, true, pos); err != nil {
+		u.failed = err.Error()
+		return false
+	}
+	old := st.clone()
+	// only targets that do not mention the index parameters can be resolved here
+	mts, err := u.resolveModifies(spec, ctx)
+	if err != nil {
+		u.failed = err.Error()
+		return false
+	}
+	for _, mt := range mts {
+		if mt.heap == "*" {
+			u.havocAll(st, "heap operation: Swap modifies *")
+			continue
+		}
+		if mt.idx == "" {
+			u.hget(st, mt.heap, mt.hsort)
+			u.havocName(st, mt.heap)
+		} else {
+			h := u.hget(st, mt.heap, mt.hsort)
+			nv := u.fresh(mt.heap+"_at", elemSortOfArray(mt.hsort))
+			if hi, ok := u.heapInfo[mt.heap]; ok && !u.discovery && hi.levels == 2 {
+				if w := u.wfVal("(select "+nv+" k)", hi.elemTy, u.hget(st, "$alloc", sInt)); w != "true" {
+					u.assumeGlobal(fmt.Sprintf("(forall ((k %s)) (! %s :pattern ((select %s k))))", hi.keySort, w, nv))
+				}
+			}
+			u.hset(st, mt.heap, mt.hsort, store(h, mt.idx, nv))
+		}
+	}
+	if err := fr.callSiteInvs(st, old, spec, swap, env, false, pos); err != nil {
+		u.failed = err.Error()
+		return false
+	}
+	// clauses labelled seq-*: relations between the old and the new state that are reflexive and transitive, hence hold
+	// for every sequence of swaps whose indices are below $hi (each is proved for one Swap on Swap's own contract)
+	for _, cl := range spec.Ensures {
+		if strings.HasPrefix(cl.Label, "seq-") {
+			t, err := u.specBool(cl.Expr, &specCtx{fr: fr, cur: st, old: old, env: env, pkg: swap.Pkg.Pkg})
+			if err != nil {
+				u.failed = fmt.Sprintf("%s:%d: %v", cl.File, cl.Line, err)
+				return false
+			}
+			u.assume(st, t)
+		}
+	}
+	return true
+}
+
+func initHeapModels() {
+	lenOf := func(fr *Frame, st *State, recv Val, rt types.Type, in ssa.Instruction, pos token.Pos) (string, bool) {
+		lf := fr.methodOf(rt, "Len")
+		if lf == nil || fr.u.eng.specFor(lf) == nil {
+			return "", false
+		}
+		rs := fr.applyContract(st, fr.u.eng.specFor(lf), lf, []Val{recv}, in, pos, lf.Signature)
+		return rs[0].T, true
+	}
+	models["container/heap.Init"] = func(fr *Frame, st *State, args []Val, in ssa.Instruction, pos token.Pos) ([]Val, bool) {
+		x, rt, ok := fr.heapRecv(st, in)
+		if !ok {
+			return nil, false
+		}
+		recv := fr.val(st, x)
+		n, ok := lenOf(fr, st, recv, rt, in, pos)
+		if !ok {
+			return nil, false
+		}
+		return nil, fr.heapSwaps(st, recv, rt, pos, n)
+	}
+	models["container/heap.Fix"] = func(fr *Frame, st *State, args []Val, in ssa.Instruction, pos token.Pos) ([]Val, bool) {
+		x, rt, ok := fr.heapRecv(st, in)
+		if !ok {
+			return nil, false
+		}
+		recv := fr.val(st, x)
+		n, ok := lenOf(fr, st, recv, rt, in, pos)
+		if !ok {
+			return nil, false
+		}
+		fr.u.check(fr, st, "pre", "heap.Fix.index", and(sx("<=", "0", args[1].T), sx("<", args[1].T, n)), "heap.Fix index within [0, Len())", pos, nil)
+		return nil, fr.heapSwaps(st, recv, rt, pos, n)
+	}
+	models["container/heap.Push"] = func(fr *Frame, st *State, args []Val, in ssa.Instruction, pos token.Pos) ([]Val, bool) {
+		x, rt, ok := fr.heapRecv(st, in)
+		if !ok {
+			return nil, false
+		}
+		recv := fr.val(st, x)
+		pf := fr.methodOf(rt, "Push")
+		if pf == nil || fr.u.eng.specFor(pf) == nil {
+			return nil, false
+		}
+		fr.applyContract(st, fr.u.eng.specFor(pf), pf, []Val{recv, args[1]}, in, pos, pf.Signature)
+		n, ok := lenOf(fr, st, recv, rt, in, pos)
+		if !ok {
+			return nil, false
+		}
+		return nil, fr.heapSwaps(st, recv, rt, pos, n)
+	}
+	popLike := func(withIndex bool) modelFn {
+		return func(fr *Frame, st *State, args []Val, in ssa.Instruction, pos token.Pos) ([]Val, bool) {
+			x, rt, ok := fr.heapRecv(st, in)
+			if !ok {
+				return nil, false
+			}
+			recv := fr.val(st, x)
+			n, ok := lenOf(fr, st, recv, rt, in, pos)
+			if !ok {
+				return nil, false
+			}
+			if withIndex {
+				fr.u.check(fr, st, "pre", "heap.Remove.index", and(sx("<=", "0", args[1].T), sx("<", args[1].T, n)), "heap.Remove index within [0, Len())", pos, nil)
+			} else {
+				fr.u.check(fr, st, "pre", "heap.Pop.nonempty", sx(">", n, "0"), "heap.Pop on a non-empty heap", pos, nil)
+			}
+			// container/heap: Pop = Swap(0, n-1); down(0, n-1); h.Pop().  Remove(i) = Swap(i, n-1) when i != n-1; fix-ups below n-1; h.Pop()
+			idx := "0"
+			if withIndex {
+				idx = args[1].T
+			}
+			last := fr.u.define("heap_last", sInt, sx("-", n, "1"))
+			sf := fr.methodOf(rt, "Swap")
+			if sf == nil || fr.u.eng.specFor(sf) == nil {
+				return nil, false
+			}
+			swapped := st.clone()
+			swapped.pc = fr.u.define("pc_heapswap", sBool, and(st.pc, not(eq(idx, last))))
+			fr.applyContract(swapped, fr.u.eng.specFor(sf), sf, []Val{recv, {T: idx, Ty: tIntT}, {T: last, Ty: tIntT}}, in, pos, sf.Signature)
+			same := st.clone()
+			same.pc = fr.u.define("pc_heapnoswap", sBool, and(st.pc, eq(idx, last)))
+			m := fr.mergeStates(fr.curBlk, []*State{swapped, same}, []string{swapped.pc, same.pc})
+			st.heap, st.epoch = m.heap, m.epoch
+			if !fr.heapSwaps(st, recv, rt, pos, last) {
+				return nil, false
+			}
+			pf := fr.methodOf(rt, "Pop")
+			if pf == nil || fr.u.eng.specFor(pf) == nil {
+				return nil, false
+			}
+			return fr.applyContract(st, fr.u.eng.specFor(pf), pf, []Val{recv}, in, pos, pf.Signature), true
+		}
+	}
+	models["container/heap.Pop"] = popLike(false)
+	models["container/heap.Remove"] = popLike(true)
+	// slices.DeleteFunc(s, del): in-place filter keeping order; result shares s's backing array
+	models["slices.DeleteFunc"] = func(fr *Frame, st *State, args []Val, in ssa.Instruction, pos token.Pos) ([]Val, bool) {
+		u := fr.u
+		s := args[0]
+		slt, ok := s.Ty.Underlying().(*types.Slice)
+		if !ok {
+			return nil, false
+		}
+		call := in.(ssa.CallInstruction).Common()
+		ci := fr.clos[call.Args[1]]
+		if ci == nil {
+			return nil, false
+		}
+		es := u.sortOf(slt.Elem())
+		hn, hs := u.elemHeapName(slt.Elem()), "(Array Int (Array Int "+es+"))"
+		h := u.hget(st, hn, hs)
+		oldAt := func(i string) string { return sel(sel(h, sx("s_arr", s.T)), u.sidx(s.T, i)) }
+		pOld, ok1 := fr.closurePred(st, ci, Val{oldAt("j"), slt.Elem(), ""})
+		if !ok1 {
+			return nil, false
+		}
+		u.note("closure passed to slices.DeleteFunc is assumed not to panic")
+		n := u.fresh("delfunc_len", sInt)
+		na := u.fresh("delfunc_arr", "(Array Int "+es+")")
+		u.assume(st, and(sx("<=", "0", n), sx("<=", n, sx("s_len", s.T))))
+		newAt := func(i string) string { return sel(na, u.sidx(s.T, i)) }
+		// every kept element stays, every deleted one goes; relative order kept (stated as an order-preserving embedding)
+		u.assume(st, fmt.Sprintf("(forall ((j Int)) (=> (and (<= 0 j) (< j (s_len %s)) (not %s)) (exists ((i Int)) (and (<= 0 i) (< i %s) (= %s %s)))))", s.T, pOld, n, newAt("i"), oldAt("j")))
+		pNew, _ := fr.closurePred(st, ci, Val{newAt("i"), slt.Elem(), ""})
+		u.assume(st, fmt.Sprintf("(forall ((i Int)) (=> (and (<= 0 i) (< i %s)) (and (not %s) (exists ((j Int)) (and (<= i j) (< j (s_len %s)) (= %s %s))))))", n, pNew, s.T, newAt("i"), oldAt("j")))
+		u.assume(st, fmt.Sprintf("(=> (forall ((j Int)) (=> (and (<= 0 j) (< j (s_len %s))) (not %s))) (= %s (s_len %s)))", s.T, pOld, n, s.T))
+		u.hset(st, hn, hs, store(h, sx("s_arr", s.T), na))
+		if hi, ok := u.heapInfo[hn]; ok && !u.discovery {
+			if w := u.wfVal("(select "+na+" k)", hi.elemTy, u.hget(st, "$alloc", sInt)); w != "true" {
+				u.assumeGlobal(fmt.Sprintf("(forall ((k Int)) (! %s :pattern ((select %s k))))", w, na))
+			}
+		}
+		r := u.define("delfunc", sSlice, sx("mkslice", sx("s_arr", s.T), sx("s_off", s.T), n, sx("s_cap", s.T)))
+		return []Val{{r, s.Ty, ""}}, true
+	}
+}
+
+
+// ---------- sync/atomic: one ghost cell per atomic variable address ----------
+
+func initAtomicModels() {
+	const hn, hs = "$atomic", "(Array Int Int)"
+	load := func(res types.Type, isBool bool) modelFn {
+		return func(fr *Frame, st *State, args []Val, in ssa.Instruction, pos token.Pos) ([]Val, bool) {
+			v := sel(fr.u.hget(st, hn, hs), args[0].T)
+			if isBool {
+				return []Val{{sx("distinct", v, "0"), res, ""}}, true
+			}
+			t := fr.u.define("atomic_load", sInt, v)
+			fr.u.assume(st, fr.u.facts(st, t, res))
+			return []Val{{t, res, ""}}, true
+		}
+	}
+	storeM := func(isBool bool) modelFn {
+		return func(fr *Frame, st *State, args []Val, in ssa.Instruction, pos token.Pos) ([]Val, bool) {
+			v := args[1].T
+			if isBool {
+				v = ite(v, "1", "0")
+			}
+			fr.u.hset(st, hn, hs, store(fr.u.hget(st, hn, hs), args[0].T, v))
+			return nil, true
+		}
+	}
+	add := func(res types.Type) modelFn {
+		return func(fr *Frame, st *State, args []Val, in ssa.Instruction, pos token.Pos) ([]Val, bool) {
+			h := fr.u.hget(st, hn, hs)
+			nv := fr.u.define("atomic_add", sInt, sx("+", sel(h, args[0].T), args[1].T))
+			fr.u.hset(st, hn, hs, store(h, args[0].T, nv))
+			return []Val{{nv, res, ""}}, true
+		}
+	}
+	tb, ti64, tu64 := types.Typ[types.Bool], types.Typ[types.Int64], types.Typ[types.Uint64]
+	models["(*sync/atomic.Bool).Load"] = load(tb, true)
+	models["(*sync/atomic.Bool).Store"] = storeM(true)
+	models["(*sync/atomic.Int64).Load"] = load(ti64, false)
+	models["(*sync/atomic.Int64).Store"] = storeM(false)
+	models["(*sync/atomic.Int64).Add"] = add(ti64)
+	models["(*sync/atomic.Uint64).Load"] = load(tu64, false)
+	models["(*sync/atomic.Uint64).Store"] = storeM(false)
+	models["(*sync/atomic.Uint64).Add"] = add(tu64)
 }
